@@ -1,5 +1,7 @@
 /- kmodel: answers one case line per input line from the Lean *model* (same protocol as harness/kimpl). -/
 import Khttp.Driver.Parse
+import Khttp.Driver.Hdr
+import Khttp.Driver.Pool
 open Khttp Khttp.Driver
 
 def answer (line : String) : String :=
@@ -10,6 +12,8 @@ def answer (line : String) : String :=
     match dom with
     | "REQ" => reqLine arg
     | "RESP" => respLine arg
+    | "HDR" => hdrLine arg
+    | "POOLTRACE" => poolTraceLine arg
     | _ => "BAD-DOMAIN"
   | [] => "BAD-DOMAIN"
 
